@@ -34,11 +34,71 @@ EF = None
 LN = None
 
 
+def _exact_sphere_rule(order):
+    """Gauss-Legendre (in cos theta) x uniform (in phi) product rule, exact for every polynomial of degree <= order on the
+    sphere, in the (phi, theta, weights) layout of LebedevNodes.loadPoints (weights sum to 1: the caller multiplies
+    by 8*dA = 4 pi)."""
+    n = (order + 2) // 2
+    nphi = 2 * n
+    xs, ws = np.polynomial.legendre.leggauss(n)
+    th = np.arccos(xs)
+    ph = (np.arange(nphi) + 0.5) * (2 * np.pi / nphi)
+    PH, TH = np.meshgrid(ph, th)
+    W = np.repeat(ws[:, None], nphi, axis=1) * (0.5 / nphi)
+    return PH.ravel(), TH.ravel(), W.ravel()
+
+
+_LEB_REPAIR = [
+    ("s1 = np.array([1, 1, 1, 1, 2, 2, 2, 2, 3, 3, 3, 3])", "s1 = np.array([2, 2, 2, 2, 1, 1, 1, 1, 3, 3, 3, 3])"),
+    ("s1 = np.array([1, 1, 1, 1, 3, 3, 3, 3])\n            theta = np.concatenate((theta, s1*np.pi/4))",
+     "t3 = np.arccos(1/np.sqrt(3))\n            s1 = np.array([t3, t3, t3, t3, np.pi-t3, np.pi-t3, np.pi-t3, np.pi-t3])\n            theta = np.concatenate((theta, s1))"),
+    ("u = np.argmin(t)\n            l = np.argmax(t)", "u = np.argmin(np.abs(p - np.pi/4))\n            l = 1 - u"),
+    ("(np.pi/2-p[1])+op", "(np.pi/2-p[l])+op"),
+]
+
+
+def _rule_is_exact(fn):
+    for order in (53, 83, 131):
+        phi, th, w = fn(order)
+        x, y, z = np.sin(th) * np.cos(phi), np.sin(th) * np.sin(phi), np.cos(th)
+        for mono, ex in (((0, 0, 2), 1 / 3), ((2, 2, 0), 1 / 15), ((4, 0, 2), 1 / 35), ((3, 1, 0), 0.0), ((2, 2, 2), 1 / 105)):
+            if abs(float(np.sum(w * x ** mono[0] * y ** mono[1] * z ** mono[2])) - ex) > 1e-12:
+                return False
+    return True
+
+
+def _corrected_lebedev():
+    """The shipped tables expanded with a corrected orbit expansion (the three slips in loadPoints repaired textually in a
+    copy of its source).  If the shipped function is already exact it is used as it is; if the repair does not yield an
+    exact rule the harness stops (HARNESS-ERROR) rather than checking with an unknown quadrature."""
+    import inspect
+    if _rule_is_exact(LN.loadPoints):
+        return LN.loadPoints
+    src = inspect.getsource(LN.loadPoints)
+    for old, new in _LEB_REPAIR:
+        if old not in src:
+            raise RuntimeError('LebedevNodes.loadPoints changed: the harness-side repair no longer applies (%r)' % old[:40])
+        src = src.replace(old, new)
+    ns = dict(LN.__dict__)
+    exec(src, ns)
+    fixed = ns['loadPoints']
+    if not _rule_is_exact(fixed):
+        raise RuntimeError('harness-side repair of loadPoints does not give an exact rule')
+    return fixed
+
+
 def prepare():
     global np, EF, LN
     import numpy as np
     from kawin.precipitation.parameters import ElasticFactors as EF
     from kawin.precipitation.parameters import LebedevNodes as LN
+    # KNOWN FINDING (see known_findings.json, sigs lebedev/order=*/inexact/*): the shipped loadPoints() does not expand the
+    # Lebedev orbits correctly (duplicate points; x^2 integrates to 0.322 instead of 1/3) and the repair cannot be
+    # committed because three pinned values in the repository's own tests were produced with the defective rule.
+    # The quadrature clause of C16 is decided by the 'lebedev' stage on the SHIPPED rule; so that the quadrature defect does
+    # not mask everything else, the remaining stages own the quadrature (as engine E4 owns thermodynamics): the name
+    # ElasticFactors.loadPoints is bound to the shipped tables with a corrected orbit expansion.  LN.loadPoints stays untouched.
+    EF.loadPoints = _corrected_lebedev()
 
 
 # ------------------------------------------------------------------------------------------------------
@@ -734,11 +794,18 @@ def run_setters(case):
     ref = _run_history(canon, cfg, r)
     rest = [o for o in ops if o != first]
     n = 0
+    skipped = 0
     outcomes = set()
     if first == ops[0]:
         _canonical_vs_reference(cfg, ops, canon, r, V)
     for tail in itertools.permutations(rest):
         hist = [first] + list(tail)
+        if 'shape' in hist and 'stiff' in hist and hist.index('shape') < hist.index('stiff'):
+            # StrainEnergy.update() documents that the description falls back to constant strain energy while the matrix
+            # constants are not set: choosing the shape before the matrix stiffness is outside the documented use
+            # (and outside the statement, which names rotation and stiffness order only)
+            skipped += 1
+            continue
         n += 1
         try:
             got = _run_history(hist, cfg, r)
@@ -781,7 +848,10 @@ def _log_sphere_avg(a, b, c):
 def run_lebedev(case):
     order, a_lo, a_hi = case['order'], case['a_lo'], case['a_hi']
     V = Viol()
-    phi, theta, w = LN.loadPoints(order)
+    corrected = bool(case.get('corrected'))
+    # corrected=True: the shipped TABLES under the harness-side corrected orbit expansion (must be exact: catches table typos
+    # that the known finding about the shipped expansion would otherwise hide)
+    phi, theta, w = (EF.loadPoints if corrected else LN.loadPoints)(order)
     phi, theta, w = np.asarray(phi, float), np.asarray(theta, float), np.asarray(w, float)
     x, y, z = np.sin(theta) * np.cos(phi), np.sin(theta) * np.sin(phi), np.cos(theta)
     nmono = 0
@@ -815,7 +885,7 @@ def run_lebedev(case):
     for kind in ('even', 'odd'):
         if kind in worst:
             deg, err, abc, q, ex = worst[kind]
-            V.add('lebedev/order=%d/inexact/%s-monomials' % (order, kind),
+            V.add('%s/order=%d/inexact/%s-monomials/failing=%d/distinct-points=%sof%d' % ('lebedev-tables' if corrected else 'lebedev', order, kind, worst[kind + '_n'], ndist, len(w)),
                   'order %d rule: sphere average of x^%d y^%d z^%d = %.15g by quadrature, exact %.15g (error %.3g; allowed %g '
                   'absolute and 1e-9 relative); '
                   '%d %s monomial(s) with a in [%d,%d] and total degree <= %d are not integrated exactly%s'
@@ -1052,9 +1122,10 @@ def run(ctx):
     # stage 3
     lcases = []
     for order in sorted(LEBEDEV_POINTS):
-        step = 8
-        for a_lo in range(0, order + 1, step):
-            lcases.append({'order': order, 'a_lo': a_lo, 'a_hi': a_lo + step - 1})
+        # one case per rule: the violation signature carries the number of failing monomials and of distinct points of
+        # the whole rule, so that a known finding matches exactly this defect and nothing else
+        lcases.append({'order': order, 'a_lo': 0, 'a_hi': order})
+        lcases.append({'order': order, 'a_lo': 0, 'a_hi': order, 'corrected': True})
     ctx.product_run('lebedev', 'checks.c16:run_lebedev', lcases, chunksize=1)
 
     # stage 4
